@@ -116,6 +116,11 @@ def corpus():
           mk(rng, rows=[[1.0, 2.0, 3.0, 4.0], [5.0, 6.0, 7.0, 6.5]], dtype="float64", as_path=True, kind="wrapped-even", wrap=2,
              **dict(base, shape_toks=["2", "4"])),
           mk(rng, rows=[[1.0, 2.0, 3.0], [4.0, 5.0, 6.5]], dtype="float64", as_path=True, kind="wrapped-ragged", wrap=2, **base)]
+    # families exercised on EVERY run: header ranges just outside / inside allclose's tolerance, one-sided corruptions, aligned columns
+    for toks, kind in ((["1", repr(6.5 * (1 + 3e-5))], "bad-range-just-outside-tolerance"), ([repr(1.0 * (1 - 3e-5)), "6.5"], "bad-range-just-outside-tolerance"),
+                       (["1", repr(6.5 * (1 + 3e-6))], "valid-range-just-inside-tolerance"), (["1", "9.75"], "bad-range-shifted"),
+                       (["3.5", "6.5"], "bad-range-shifted"), (["-2", "6.5"], "bad-range-shifted"), (["1", "4.25"], "bad-range-shifted")):
+        cs.append(mk(rng, rows=rows, dtype="float64", as_path=True, kind=kind, **dict(base, range_toks=toks)))
     return cs
 
 
